@@ -1449,3 +1449,239 @@ Proof.
     apply rbind_ok in Hfr. destruct Hfr as (s & Hs' & Hfr). inversion Hfr; subst.
     replace frag_prefix with [35] by reflexivity. simpl. eapply url_quote_pct; eassumption.
 Qed.
+
+(* ------------------------------------------------------------ static assets registered under a URL *)
+Lemma Facts_ok_static_external_safe : path_safe_ok static_external_safe = true.
+Proof. vm_compute. reflexivity. Qed.
+(* the registered URL and the quoted sub-path are concatenated (not passed through urljoin) *)
+Lemma Facts_ok_static_external_join : static_external_uses_urljoin = false.
+Proof. reflexivity. Qed.
+
+(* the result is <registered URL, scheme filled in> ++ quoted sub-path ++ ?query ++ #fragment, whatever the
+   sub-path and whatever the URL's scheme; the quoted sub-path decodes back and is RFC 3986 clean *)
+Theorem static_external_roundtrip e url sub o u :
+  static_external e url sub o = Ok u ->
+  exists url' q qs fr,
+    u = url' ++ q ++ qs ++ fr /\ tail_parts o = Ok (qs, fr)
+    /\ (forall p, urlparse [] url = Ok p -> r_scheme p <> [] -> url' = url)
+    /\ unquote_text q = Some sub /\ Forall pc q /\ pct_ok q = true.
+Proof.
+  pose proof Facts_ok_static_external_safe as HF. apply path_safe_ok_parts in HF. destruct HF as (Hg & Hs & _).
+  pose proof (good_safe_spec _ Hg) as [Ha H37].
+  unfold static_external. rewrite Facts_ok_static_external_join, parse_url_overrides_eq. intros H.
+  apply rbind_ok in H. destruct H as ([[app qs] fr] & H0 & H).
+  apply rbind_ok in H0. destruct H0 as (app' & _ & H0). apply rbind_ok in H0. destruct H0 as ([qs' fr'] & Ht & H0).
+  inversion H0; subst. clear H0. simpl in H.
+  apply rbind_ok in H. destruct H as (p & Hp & H). apply rbind_ok in H. destruct H as (b & Hb & H).
+  apply utf8_enc_ok in Hb. destruct Hb as [Hv ->]. simpl in H. inversion H; subst. clear H.
+  pose proof (encode_bytes _ Hv) as Hbytes.
+  rewrite <- app_assoc. do 4 eexists.
+  split; [reflexivity|]. split; [eassumption|]. split.
+  - intros p' Hp' Hne. rewrite Hp in Hp'. inversion Hp'; subst. destruct (r_scheme p'); [contradiction|reflexivity].
+  - split; [rewrite unquote_text_quote by assumption; apply decode_encode; assumption|]. split.
+    + apply (quote_chars path_char); auto. apply unreserved_path.
+    + apply pct_ok_quote; assumption.
+Qed.
+
+(* ------------------------------------------------------------ the application URL is as clean as the inputs *)
+Section AppChars.
+Variable P : N -> Prop.
+Hypothesis P_colon : P 58.
+Hypothesis P_slash : P 47.
+Hypothesis P_digits : Forall P [52; 51; 56; 48].     (* the default ports "443", "80" *)
+
+Definition opt_ok (o : option text) : Prop := match o with Some t => Forall P t | None => True end.
+Definition inputs_ok (e : env) (o : overrides) : Prop :=
+  Forall P (e_scheme e) /\ opt_ok (e_http_host e) /\ Forall P (e_server_name e) /\ Forall P (e_server_port e)
+  /\ opt_ok (o_scheme o) /\ opt_ok (o_host o) /\ opt_ok (o_port o).
+
+Lemma cut_Forall c s : Forall P s ->
+  Forall P (fst (cut c s)) /\ match snd (cut c s) with Some r => Forall P r | None => True end.
+Proof.
+  induction 1 as [|x r Hx Hr IH]; simpl; [split; [constructor|exact I]|].
+  destruct (x =? c); simpl; [split; [constructor|assumption]|].
+  destruct (cut c r) as [a b]. simpl in *. destruct IH. split; [constructor; assumption|assumption].
+Qed.
+Lemma before_Forall c s : Forall P s -> Forall P (before c s).
+Proof. intros H. apply (proj1 (cut_Forall c s H)). Qed.
+Lemma after_Forall c s : Forall P s -> Forall P (after c s).
+Proof.
+  intros H. unfold after. pose proof (proj2 (cut_Forall c s H)) as G. destruct (snd (cut c s)); [assumption|constructor].
+Qed.
+
+Lemma default_port_Forall s d : default_port s = Some d -> Forall P d.
+Proof.
+  unfold default_port, rfc_default_ports. simpl. inversion P_digits as [|? ? P52 T1]; subst.
+  inversion T1 as [|? ? P51 T2]; subst. inversion T2 as [|? ? P56 T3]; subst. inversion T3 as [|? ? P48 _]; subst.
+  destruct (text_eqb s _); [intros H; inversion H; subst; repeat constructor; assumption|].
+  destruct (text_eqb s _); [intros H; inversion H; subst; repeat constructor; assumption|discriminate].
+Qed.
+
+Lemma spec_authority_chars e s h p :
+  Forall P (e_scheme e) -> opt_ok (e_http_host e) -> Forall P (e_server_name e) -> Forall P (e_server_port e) ->
+  opt_ok s -> opt_ok h -> opt_ok p -> Forall P (spec_authority e s h p).
+Proof.
+  intros H1 H2 H3 H4 Hs Hh Hp. unfold spec_authority.
+  set (hostport := match h with Some x => x | None => match e_http_host e with Some x => x | None => e_server_name e end end).
+  assert (Hhp : Forall P hostport).
+  { unfold hostport. destruct h; [assumption|]. destruct (e_http_host e); assumption. }
+  set (port := match p with Some x => x | None => _ end).
+  assert (Hport : Forall P port).
+  { unfold port. destruct p; [assumption|]. destruct s as [s|].
+    - destruct (default_port s) eqn:E; [eapply default_port_Forall; eassumption|].
+      destruct (has_colon hostport); [apply after_Forall|]; assumption.
+    - destruct (has_colon hostport); [apply after_Forall|]; assumption. }
+  cbv zeta. replace scheme_sep with [58; 47; 47] by reflexivity. replace port_sep with [58] by reflexivity.
+  match goal with |- context [match ?X with [] => [] | _ :: _ => _ end] => set (shown := X) end.
+  assert (Hshown : Forall P shown).
+  { unfold shown. destruct (default_port _); [|assumption]. destruct (text_eqb port t); [constructor|assumption]. }
+  repeat (apply Forall_app; split).
+  - destruct s; assumption.
+  - repeat constructor; assumption.
+  - apply before_Forall; assumption.
+  - destruct shown; [constructor|]. apply Forall_app. split; [repeat constructor; assumption|assumption].
+Qed.
+
+Lemma with_port_chars u port : Forall P u -> opt_ok port -> Forall P (with_port u port).
+Proof.
+  intros Hu Hp. unfold with_port. destruct port as [[|c r]|]; try assumption.
+  replace port_sep with [58] by reflexivity. repeat (apply Forall_app; split); auto; repeat constructor; assumption.
+Qed.
+
+Lemma webob_host_url_chars e :
+  Forall P (e_scheme e) -> opt_ok (e_http_host e) -> Forall P (e_server_name e) -> Forall P (e_server_port e) ->
+  Forall P (webob_host_url e).
+Proof.
+  intros H1 H2 H3 H4. unfold webob_host_url.
+  assert (G : forall host port, Forall P host -> opt_ok port ->
+              Forall P (with_port (e_scheme e ++ [58; 47; 47] ++ host)
+                          (elide [([104; 116; 116; 112; 115], [52; 52; 51]); ([104; 116; 116; 112], [56; 48])] (e_scheme e) port))).
+  { intros host port Hh Hp. apply with_port_chars.
+    - repeat (apply Forall_app; split); auto; repeat constructor; assumption.
+    - unfold elide. destruct (lookup _ (e_scheme e)); [|assumption]. destruct port; [|exact I].
+      destruct (text_eqb t0 t); [exact I|assumption]. }
+  destruct (e_http_host e) as [h|]; simpl in H2.
+  - destruct (has_colon h && negb (last h 0 =? 93)).
+    + unfold rcut. pose proof (cut_Forall 58 (rev h) (Forall_rev H2)) as [C1 C2].
+      destruct (cut 58 (rev h)) as [a [r|]]; simpl in *; apply G; auto; try apply Forall_rev; auto. constructor.
+    + apply G; [assumption|exact I].
+  - apply G; assumption.
+Qed.
+
+Theorem host_part_chars e o : inputs_ok e o -> Forall P (host_part e o).
+Proof.
+  intros (H1 & H2 & H3 & H4 & Hs & Hh & Hp). unfold host_part.
+  destruct (o_scheme o) as [s|] eqn:Es; [rewrite overrides_honoured; apply spec_authority_chars; auto|].
+  destruct (o_host o) as [h|] eqn:Eh; [rewrite overrides_honoured; apply spec_authority_chars; auto|].
+  destruct (o_port o) as [p|] eqn:Ep; [rewrite overrides_honoured; apply spec_authority_chars; auto|].
+  apply webob_host_url_chars; assumption.
+Qed.
+End AppChars.
+
+(* with scheme / host / port inputs free of '?' and '#', the reference decoder splits every route_url
+   output where the parts were put: the charset hypothesis of route_url_decodes discharged from the inputs *)
+Definition no_delim (c : N) : Prop := c <> 35 /\ c <> 63.
+
+Theorem route_url_decodes_clean c e rs n els o kw u :
+  inputs_ok no_delim e o -> o_app_url o = None ->
+  wf_query (o_query o) -> wf_anchor (o_anchor o) ->
+  join_elements_c c els = join_elements els ->
+  route_url c e rs n els o kw = Ok u ->
+  exists base qt f, cut_ref u = (base, qt, f) /\ Forall qc qt /\ Forall qc f
+    /\ query_decodes (o_query o) qt
+    /\ (forall t, spec_anchor (o_anchor o) = Some t -> unquote_text f = Some t).
+Proof.
+  intros Hin Ho Hwq Hwa Hc H.
+  destruct (route_url_decodes _ _ _ _ _ _ _ _ Hwq Hwa Hc H) as (app & path & sfx & qt & f & Ha & _ & Q & F & Hcut & Hq & Hf & _).
+  destruct (parse_app_none _ _ _ Ho Ha) as (s & Hs & ->).
+  assert (Hh : Forall no_delim (host_part e o)).
+  { apply host_part_chars; auto; unfold no_delim; try (split; discriminate). repeat constructor; discriminate. }
+  destruct (pc_no_delims _ (quoted_script_chars _ _ Hs)) as [S63 S35].
+  assert (A35 : ~ In 35 (host_part e o ++ s)).
+  { rewrite in_app_iff. intros [Hx|Hx]; [|auto]. rewrite Forall_forall in Hh. destruct (Hh _ Hx). congruence. }
+  assert (A63 : ~ In 63 (host_part e o ++ s)).
+  { rewrite in_app_iff. intros [Hx|Hx]; [|auto]. rewrite Forall_forall in Hh. destruct (Hh _ Hx). congruence. }
+  eexists _, qt, f. split; [apply Hcut; assumption|]. auto.
+Qed.
+
+(* ------------------------------------------------------------ resource_url with a virtual root / route_name= *)
+Lemma join_path_tuple_chars names p : join_path_tuple names = Ok p -> Forall pc p.
+Proof.
+  pose proof Facts_ok_path_tuple_safe as HF. unfold segment_safe_ok in HF.
+  apply andb_true_iff in HF. destruct HF as [HF _].
+  unfold join_path_tuple. intros Hp. apply rbind_ok in Hp. destruct Hp as (qs & Hqs & Hp).
+  assert (Hj : Forall pc (join [47] qs)).
+  { apply Forall_join; [|apply pc47]. eapply mapM_Forall; [|eassumption]. intros x y. apply qps_chars; assumption. }
+  destruct names; [inversion Hp; subst; apply pc47|].
+  destruct (join [47] qs); inversion Hp; subst; [apply pc47|assumption].
+Qed.
+
+Lemma resource_adapter_chars names vroot vp vpt : resource_adapter names vroot = Ok (vp, vpt) -> Forall pc vp.
+Proof.
+  unfold resource_adapter. intros H. apply rbind_ok in H. destruct H as (p & Hp & H).
+  apply join_path_tuple_chars in Hp.
+  assert (Hpp : Forall pc (match map (fun n => if truthy n then n else PStr []) names with [] => p | _ :: _ => p ++ [47] end)).
+  { destruct (map _ names); [assumption|]. apply Forall_app. split; [assumption|apply pc47]. }
+  destruct vroot as [v|]; [|inversion H; subst; assumption].
+  apply rbind_ok in H. destruct H as (t & _ & H).
+  match type of H with (if ?B then _ else _) = _ => destruct B end; [|inversion H; subst; assumption].
+  apply rbind_ok in H. destruct H as (vp' & Hvp & H). inversion H; subst.
+  eapply join_path_tuple_chars; eassumption.
+Qed.
+
+(* without virtual root and route_name it is the function the earlier theorems speak about *)
+Theorem resource_url_x_plain c e rs names els o :
+  resource_url_x c e rs names els o None None = resource_url c e names els o.
+Proof.
+  unfold resource_url_x, resource_url, resource_adapter, virtual_path.
+  destruct (join_path_tuple _); reflexivity.
+Qed.
+
+(* with route_name= it is route_url with the virtual path tuple as the remainder value *)
+Theorem resource_url_x_route c e rs names els o vroot rname rem rkw u :
+  resource_url_x c e rs names els o vroot (Some (rname, rem, rkw)) = Ok u ->
+  exists vp vpt, resource_adapter names vroot = Ok (vp, vpt)
+    /\ route_url c e rs rname els o
+         (dupdate [(rem, KSeq vpt [])] (match rkw with Some k => k | None => [] end)) = Ok u.
+Proof.
+  unfold resource_url_x. intros H. apply rbind_ok in H. destruct H as ([vp vpt] & Ha & H). eauto.
+Qed.
+
+(* under a virtual root: same decoding theorem, the path part being the adapter's virtual path *)
+Theorem resource_url_x_decodes c e rs names els o vroot u :
+  wf_query (o_query o) -> wf_anchor (o_anchor o) ->
+  join_elements_c c els = join_elements els ->
+  resource_url_x c e rs names els o vroot None = Ok u ->
+  exists app vp vpt sfx qt f,
+    parse_app e o = Ok app /\ resource_adapter names vroot = Ok (vp, vpt)
+    /\ Forall pc (vp ++ sfx) /\ Forall qc qt /\ Forall qc f
+    /\ (~ In 35 app -> ~ In 63 app -> cut_ref u = (app ++ vp ++ sfx, qt, f))
+    /\ query_decodes (o_query o) qt
+    /\ (forall t, spec_anchor (o_anchor o) = Some t -> unquote_text f = Some t)
+    /\ (els <> [] -> exists ts, spec_elements els = Some ts /\ decode_segments sfx = Some ts).
+Proof.
+  intros Hwq Hwa Hc H. unfold resource_url_x in H. apply rbind_ok in H. destruct H as ([vp vpt] & Hvp & H).
+  rewrite parse_url_overrides_eq in H.
+  apply rbind_ok in H. destruct H as ([[app qs] fr] & H0 & H).
+  apply rbind_ok in H0. destruct H0 as (app' & Happ & H0). apply rbind_ok in H0. destruct H0 as ([qs' fr'] & Ht & H0).
+  inversion H0; subst. clear H0. simpl in H.
+  unfold tail_parts in Ht. apply rbind_ok in Ht. destruct Ht as (qs0 & Hqs & Ht).
+  apply rbind_ok in Ht. destruct Ht as (fr0 & Hfr & Ht). inversion Ht; subst. clear Ht.
+  apply rbind_ok in H. destruct H as (sfx & Hs & H). inversion H; subst. clear H.
+  destruct (query_string_spec _ _ Hwq Hqs) as (qt & Q1 & Q2 & Q3 & Q4).
+  destruct (fragment_spec _ _ Hwa Hfr) as (f & F1 & F2 & F3).
+  pose proof (resource_adapter_chars _ _ _ _ Hvp) as Pc.
+  assert (Sc : Forall pc sfx /\ (els <> [] -> exists ts, spec_elements els = Some ts /\ decode_segments sfx = Some ts)).
+  { destruct els as [|x els'].
+    - inversion Hs; subst. split; [constructor|]. intros Hne; contradiction.
+    - rewrite Hc in Hs. split; [eapply join_elements_chars; eassumption|].
+      intros Hne. apply elements_roundtrip; assumption. }
+  destruct Sc as [Sc Se].
+  exists app, vp, vpt, sfx, qt, f. repeat split; auto.
+  - apply Forall_app; auto.
+  - intros A35 A63.
+    match goal with |- cut_ref (?a ++ ?p ++ ?s ++ ?q ++ ?r) = _ =>
+      replace (a ++ p ++ s ++ q ++ r) with ((a ++ p ++ s) ++ q ++ r) by (rewrite <- !app_assoc; reflexivity) end.
+    destruct (pc_no_delims _ Pc) as [P63 P35]. destruct (pc_no_delims _ Sc) as [S63 S35].
+    apply cut_ref_generated; auto; rewrite !in_app_iff; tauto.
+Qed.
